@@ -561,13 +561,15 @@ def startIters (tables : List Tbl) (iters : List Nat) :
 
 /-- what can happen between the steps of interleaved printing: an iterator is advanced for the first
 time (`start i`), or the caller changes what a table shows — `table.fmt.set_limits((a, b))` on the
-live format object (the skipped-lines flag and the negotiated widths are forgotten; the model does not
-cover this while a print of that table is still being consumed: the real generator then meets columns
-without width), `table.records.append(r)` on the caller-owned list -/
+live format object (the skipped-lines flag and the negotiated widths are forgotten: the format gets fresh
+columns; a print that is being consumed keeps the columns — and the lines — it started with), `table.records.append(r)`, `table.records[i] = r`, `table.records.reverse()` on the caller-owned list
+(the table reads the live list whenever a print starts) -/
 inductive Ev where
   | start (i : Nat)
   | setLimits (ti : Nat) (a b : Option Int)
   | append (ti : Nat) (r : Record)
+  | replace (ti : Nat) (i : Nat) (r : Record)     -- `table.records[i] = r`
+  | reverse (ti : Nat)                             -- `table.records.reverse()`
   deriving Repr
 
 /-- `startIters` with changes of the tables in between: every iterator yields the lines of its table
@@ -597,5 +599,15 @@ def runEvents (tables : List Tbl) (iters : List Nat) :
     match tables[ti]? with
     | Option.none => .error .indexError
     | some t => runEvents (tables.set ti { t with records := t.records ++ [r] }) iters rest acc
+  | .replace ti i r :: rest, acc =>
+    match tables[ti]? with
+    | Option.none => .error .indexError
+    | some t =>
+      if i < t.records.length then runEvents (tables.set ti { t with records := t.records.set i r }) iters rest acc
+      else .error .indexError
+  | .reverse ti :: rest, acc =>
+    match tables[ti]? with
+    | Option.none => .error .indexError
+    | some t => runEvents (tables.set ti { t with records := t.records.reverse }) iters rest acc
 
 end Table
